@@ -225,10 +225,14 @@ func (v *PacketDslVisitorImpl) VisitFieldDefinitionWithAttribute(ctx *gen.FieldD
 			if padChar == "'\\x00'" {
 				padChar = "'\x00'"
 			}
-			f.Attr.(*model.FixedStringFieldAttribute).Padding = &model.Padding{
+			// the attribute object may be shared with a MetaData entry (and so with
+			// other fields of that type): attach the padding to a copy
+			fixed := *f.Attr.(*model.FixedStringFieldAttribute)
+			fixed.Padding = &model.Padding{
 				PadChar: padChar,
 				PadLeft: strings.Contains(fieldAttr.PaddingAttribute().PADDING_ATTR().GetText(), "left"),
 			}
+			f.Attr = &fixed
 		case fieldAttr.TagAttribute() != nil:
 			tagValue := fieldAttr.TagAttribute().DIGITS().GetText()
 			tagInt, _ := strconv.Atoi(tagValue)
